@@ -2,16 +2,28 @@
 # tools_seed_eval.sh <patch> <property>...   apply a seeded change to /repo, run the quick checks, ALWAYS undo.
 set -u
 patch="$1"; shift
+# SEED_REPO=<dir>: evaluate in a scratch worktree of /repo created at <dir> (removed afterwards)
+# instead of /repo itself (used while other checks are running on /repo).
+repoarg=()
+if [ -n "${SEED_REPO:-}" ]; then
+  git -C /repo worktree remove --force "$SEED_REPO" 2>/dev/null; rm -rf "$SEED_REPO"
+  git -C /repo worktree add -q --detach "$SEED_REPO" HEAD || exit 2
+  cd "$SEED_REPO" || exit 2
+  git apply "$patch" || { echo "patch does not apply"; git -C /repo worktree remove --force "$SEED_REPO"; exit 2; }
+  trap 'git -C /repo worktree remove --force "$SEED_REPO"; git -C /repo worktree prune' EXIT
+  repoarg=(-repo "$SEED_REPO")
+else
 cd /repo || exit 2
 if [ -n "$(git status --porcelain --untracked-files=no)" ]; then echo "/repo not clean"; exit 2; fi
 git apply "$patch" || { echo "patch does not apply"; exit 2; }
 trap 'git -C /repo checkout -- . ; git -C /repo clean -fdq -- . 2>/dev/null' EXIT
+fi
 (go build ./... ) || { echo "BUILD FAILS"; exit 2; }
 cd /verif
 for p in "$@"; do
   # the evidence files under /verif/evidence must describe the UNCHANGED tree: keep them
   cp -f evidence/$p.json /tmp/evidence.$p.bak 2>/dev/null
-  out=$(./check "$p" --tier "${SEED_TIER:-quick}" 2>/dev/null); rc=$?
+  out=$(./check "$p" --tier "${SEED_TIER:-quick}" "${repoarg[@]}" 2>/dev/null); rc=$?
   cp -f /tmp/evidence.$p.bak evidence/$p.json 2>/dev/null
   echo "== $p exit=$rc"
   echo "$out" | grep -E "^(VIOLATION|KNOWN-FINDING|INCONCLUSIVE|PASS|  harness=)" | cut -c1-330 | head -8
